@@ -4,7 +4,7 @@ from tools.vlib import *
 from props.C27 import harness, extract, hx, head, req, cfg, code_of, SECOND
 
 PID = "C28"
-READY = False
+READY = True
 MANIFEST = {
     "level_text": "Lean 4 theorems about the model of parse_request / handle_store / handle_fetch / allow_store_request / "
                   "allow_stream_fetch. C28.admit_request / admit_connection: for every connection byte stream, configuration and daemon state, a STORE answered "
